@@ -72,6 +72,13 @@ def modelRels {α β : Type} (eq1 : α → α → Bool) (eq2 : β → β → Boo
   [pairEq eq1 eq2 a b, pairNe eq1 eq2 a b, pairLt lt1 lt2 a b, pairLe lt1 lt2 a b, pairGt lt1 lt2 a b,
    pairGe lt1 lt2 a b]
 
+/-! ### double elements: 9 stands for NaN, which is unordered with everything -/
+def NaN : Int := 9
+def dLt (a b : Int) : Bool := a != NaN && b != NaN && decide (a < b)
+def dEq (a b : Int) : Bool := a != NaN && b != NaN && a == b
+def dCmp (a b : Int) : Ord3 :=
+  if a == NaN || b == NaN then .unordered else if a < b then .less else if b < a then .greater else .equiv
+
 /-- tuples of the same arity are equal iff all elements are -/
 def tupleEq (a b : List Int) : Bool := decide (a = b)
 
@@ -102,12 +109,10 @@ def refWrapCall (tid : Nat) (cst : Bool) (args : List (Option Cat × Int)) : Int
 /-- `function_ref`: the referenced entity is invoked as an lvalue (of the const-ness bound);
     the arguments reach it as `forward<Args>(args)...` -/
 def functionRefCall (callee : Callee) (args : List (Option Cat × Int)) : Int × Log :=
-  let fwd (a : Option Cat × Int) : Option Cat × Int := match a with
-    | (none, v) => (some .r, v)
-    | x => x
+  -- `paramArrives`: a by-value parameter reaches the target as an rvalue, a reference parameter unchanged
   match callee with
-  | .fob tid c => callTarget tid (some c.asLvalue) (args.map fwd)
-  | other => invoke other (args.map fwd)
+  | .fob tid c => callTarget tid (some c.asLvalue) (args.map paramArrives)
+  | other => invoke other (args.map paramArrives)
 
 /-- `bind_front(f, bound...)(args...)` called through a `q`-qualified wrapper:
     `invoke(q-qualified fd, q-qualified bound..., args...)` -/
